@@ -65,8 +65,10 @@ func buildEvidence(prop, tier string, seed int64, outs []*harnessOutcome, reg *r
 			"bounds": map[string]interface{}{"text": o.reg.Bounds[tier], "max_decisions_per_path": o.cfg.MaxDecisions, "max_instructions_per_path": o.cfg.MaxSteps,
 				"concretize_k": o.cfg.ConcretizeK, "max_paths": o.cfg.MaxPaths, "solver_timeout_ms": o.cfg.SolverMs},
 			"functions_encoded_declared": o.reg.Encodes,
-			"functions_executed_top":     r.TopFuncs(25, func(s string) bool { return strings.Contains(s, "absnfs") && !strings.Contains(s, ".vp") && !strings.Contains(s, ".VPH_") }),
-			"cuts":                       r.BoundsNotes,
+			"functions_executed_top": r.TopFuncs(25, func(s string) bool {
+				return strings.Contains(s, "absnfs") && !strings.Contains(s, ".vp") && !strings.Contains(s, ".VPH_")
+			}),
+			"cuts": r.BoundsNotes,
 		}
 		if o.alt != nil {
 			hs["cross_solver_z3_5.1.0"] = map[string]interface{}{"paths": o.alt.Paths, "obligations": o.alt.Obligations, "discharged": o.alt.Discharged, "violations": len(o.alt.Violations), "solver_s": round3(o.alt.SolverTime.Seconds())}
